@@ -225,6 +225,83 @@ func (e *escCtx) namedStringSafe(n *types.Named) bool {
 	return e.returnsSafe(fn)
 }
 
+// elemsSafe: every element ever put into the locally built list v is safe: a make([]string, n) filled by indexed
+// stores, an append chain of safe values, a slice literal.
+func (e *escCtx) elemsSafe(v ssa.Value, d int) bool {
+	if d > 4 {
+		return false
+	}
+	switch x := v.(type) {
+	case *ssa.MakeSlice:
+		for _, ref := range *x.Referrers() {
+			switch y := ref.(type) {
+			case *ssa.DebugRef:
+			case *ssa.IndexAddr:
+				for _, r2 := range *y.Referrers() {
+					switch z := r2.(type) {
+					case *ssa.Store:
+						if z.Addr == ssa.Value(y) && !e.safe(z.Val) {
+							return false
+						}
+					case *ssa.UnOp, *ssa.DebugRef:
+					default:
+						return false
+					}
+				}
+			case *ssa.Call:
+				// len(x), the Join itself, range
+				if bi, ok := y.Call.Value.(*ssa.Builtin); ok && (bi.Name() == "len" || bi.Name() == "cap") {
+					continue
+				}
+				if calleeObj(y) != nil && calleeObj(y).Pkg() != nil && calleeObj(y).Pkg().Path() == "strings" && calleeObj(y).Name() == "Join" {
+					continue
+				}
+				return false
+			case *ssa.Slice, *ssa.Phi:
+				// re-sliced or merged: give up
+				return false
+			default:
+				return false
+			}
+		}
+		return true
+	case *ssa.Slice:
+		if els, ok := sliceLitElems(x); ok {
+			for _, el := range els {
+				if !e.safe(el) {
+					return false
+				}
+			}
+			return true
+		}
+	case *ssa.Call:
+		if bi, ok := x.Call.Value.(*ssa.Builtin); ok && bi.Name() == "append" && len(x.Call.Args) == 2 {
+			if !isNilConst(x.Call.Args[0]) && !e.elemsSafe(x.Call.Args[0], d+1) {
+				return false
+			}
+			for _, el := range variadicElems(x.Call.Args[1]) {
+				if el != nil && !e.safe(el) {
+					return false
+				}
+			}
+			return len(variadicElems(x.Call.Args[1])) > 0
+		}
+	case *ssa.Phi:
+		for _, ed := range x.Edges {
+			if isNilConst(ed) || ed == ssa.Value(x) {
+				continue
+			}
+			if !e.elemsSafe(ed, d+1) {
+				return false
+			}
+		}
+		return true
+	case *ssa.Const:
+		return isNilConst(x)
+	}
+	return false
+}
+
 func (e *escCtx) returnsSafe(fn *ssa.Function) bool {
 	switch e.fnMemo[fn] {
 	case 1, 3:
@@ -419,6 +496,12 @@ func (e *escCtx) compute(v ssa.Value) bool {
 				}
 			}
 			return true
+		case "strings.Join":
+			// a separator-joined list: safe when the separator and every element put into the list are
+			if len(x.Call.Args) == 2 && e.safe(x.Call.Args[1]) && e.elemsSafe(x.Call.Args[0], 0) {
+				return true
+			}
+			return e.unsafeWhy(v, "strings.Join of a list whose elements are not all escaped")
 		case "bytes.Buffer.String", "bytes.Buffer.Bytes", "strings.Builder.String":
 			// contents of a local buffer: every write into it is itself a checked sink
 			return true
